@@ -458,6 +458,8 @@ class FKF:
         Sigma_am = np.diag([self.sigma_a]*3 + [self.sigma_m]*3)     # (eq. 28)
         Q = np.zeros((num_samples, 4))
         # Initial quaternion from the accelerometer and magnetometer
+        if not (np.linalg.norm(acc[0]) > 0 and np.linalg.norm(mag[0]) > 0):
+            raise ValueError("The initial attitude cannot be estimated: the first samples of acc and mag must be non-zero.")
         Q[0] = ecompass(acc[0], mag[0], frame='NED', representation='quaternion')
         for t in range(1, num_samples):
             q_ = Q[t-1]                                             # Previous quaternion
